@@ -31,7 +31,8 @@ def _key(sch, symptom, rec, erased=False, hbt=False):
       honest-broadcast-timeout  an honest party's DeliverFrom ran into its time-out waiting for an honest
                                 party earlier in this scenario: the synchronous broadcast the protocols
                                 assume was not provided by the library's broadcast in this run"""
-    marker = "dkg-erased-party/" if erased else ("honest-broadcast-timeout/" if hbt else "")
+    marker = "+".join(m for m, on in (("dkg-erased-party", erased), ("honest-broadcast-timeout", hbt)) if on)
+    marker = marker + "/" if marker else ""
     return "C16/%s/%s%s/%s" % (sch, marker, symptom, _scen_class(rec))
 
 
